@@ -3051,3 +3051,71 @@ SPECS["C06"].append(spec_ignore_errors_recovery)
 SPECS["C01"].append(spec_ignore_errors_recovery)
 
 SPECS["C01"].append(spec_parse_subcommand)        # error-ignoring: an explicit help / version request is still reported
+
+
+# ------------------------------------------------------------------ C03/C10: a conditional requirement is judged by the argument that declares it
+
+def spec_requires_owner(fns, consts):
+    """Command::unroll_arg_requires walks the `requires` lists of an argument AND of every argument it
+    transitively requires, asking a caller-supplied predicate whether each (condition, id) entry is
+    relevant.  A condition `Equals(v)` is about the value of the argument that DECLARES the entry, so
+    (a) in one pass of the walk the predicate handed to `filter_map` must carry the id popped from the
+    work list (the declaring argument) - a bare `&func` cannot know whose entry it judges; (b) the
+    closures built by Validator::gather_requires and Usage for that walk must evaluate `check_explicit`
+    through the matcher *for the id they are handed*, not on a MatchedArg / id captured from outside."""
+    con = contracts.Contracts(fns, default_pure=True)
+    ctx = symex.Ctx(consts, con)
+    fn = _find(fns, "builder/command.rs", "unroll_arg_requires")
+    ex = symex.Exec(ctx, fn, [("opq", "self"), ("opq", "func"), ("opq", "arg")])
+    ex.run(havoc_unassigned=True, cut_loops=True)
+    obs, n = [], 0
+    for pc, env in ex.cuts:
+        for c in env.get("#callargs", ()):
+            if not re.search(r"as Iterator>::filter_map::<", c[0]):
+                continue
+            n += 1
+            m = re.search(r"find\(self,(.*?@Some\.0)\)@Some\.0", c[1][0])
+            owner = m.group(1) if m else None
+            pred = c[1][1]
+            caps = re.findall(r"(?:copy|move) (_\d+)", pred) if pred.startswith("closure:") else []
+            vals = [env.get(l) for l in caps]
+            ok = owner is not None and any(v is not None and v[0] == "opq" and v[1] == owner for v in vals)
+            obs.append({"fn": fn.name, "block": "loop", "kind": "spec", "target": "requires_owner",
+                        "msg": "the relevance predicate applied to an argument's `requires` entries is given that argument's id (the one popped from the work list)" + ("" if ok else f" - predicate is `{pred[:80]}`"),
+                        "pc": list(pc), "neg": "false" if ok else "true"})
+    if n == 0:
+        obs.append({"fn": fn.name, "block": "shape", "kind": "spec", "target": "requires_owner", "msg": "unroll_arg_requires: no pass of the walk filters a `requires` list", "pc": [], "neg": "true"})
+    encs = [_enc(fn, ex, len(ex.cuts) + len(ex.returns))]
+    # (b) the callers' closures
+    callers = 0
+    for name, f in fns.items():
+        if not re.search(r"(parser/validator\.rs.*gather_requires|output/usage\.rs.*)::\{closure#\d+\}$", name):
+            continue
+        if "{closure#" not in name.rsplit("::", 1)[-1] or name.count("{closure#") != 1:
+            continue
+        body = f.get()
+        ptypes = [str(t) for _, t in body.params]
+        if not any("(ArgPredicate, Id)" in t for t in ptypes):
+            continue
+        if not any("check_explicit" in str(b) for b in (body.text if isinstance(body.text, list) else [body.text])):
+            continue
+        callers += 1
+        nparams = len(body.params)
+        args = [("opq", "env")] + [("opq", f"p{i}") for i in range(1, nparams)]
+        e2 = symex.Exec(ctx, body, args).run()
+        for (pc, val), ca in zip(e2.returns, e2.return_callargs):
+            for c in ca:
+                if not c[0].endswith("::check_explicit"):
+                    continue
+                ok = c[0].endswith("ArgMatcher::check_explicit") and nparams >= 3 and len(c[1]) == 3 and c[1][1] == "p1"
+                obs.append({"fn": body.name, "block": "ret", "kind": "spec", "target": "requires_owner",
+                            "msg": "a value condition is checked through the matcher for the id the closure is handed" + ("" if ok else f" - found {c[0].split('::')[-2]}::check_explicit({', '.join(a[:30] for a in c[1])})"),
+                            "pc": list(pc), "neg": "false" if ok else "true"})
+        encs.append(_enc(body, e2, len(e2.returns)))
+    if callers == 0:
+        obs.append({"fn": "validator.rs/usage.rs", "block": "shape", "kind": "spec", "target": "requires_owner", "msg": "no caller closure of unroll_arg_requires evaluates check_explicit", "pc": [], "neg": "true"})
+    return ctx, obs, encs, con
+
+
+SPECS["C03"].append(spec_requires_owner)
+SPECS["C10"].append(spec_requires_owner)
